@@ -42,6 +42,9 @@ structure Req where
   decode : Bool := true
   deriving Repr, DecidableEq
 
+/-- The region object carried by a request with a fixed origin. -/
+def Req.region (q : Req) (o : Nat) : Region := ⟨o, q.size, q.cached, q.linker, q.decode⟩
+
 structure BusH (ν : Type) where
   aw        : Nat                    -- address_width
   dw        : Nat                    -- data_width
@@ -122,9 +125,9 @@ def addRegion (s : BusH ν) (name : ν) (q : Req) : Except Err (BusH ν) :=
     match q.origin with
     | none => .error .badArg
     | some o =>
-      let r : Region := ⟨o, q.size, q.cached, q.linker, q.decode⟩
-      let l := s.ioRegions ++ [(name, r)]
-      if anyOverlap (l.map (·.2)) then .error .ioOverlap else .ok { s with ioRegions := l }
+      -- `self.io_regions[name] = region`, then `check_regions_overlap(self.io_regions)`
+      if anyOverlap ((s.ioRegions ++ [(name, q.region o)]).map (·.2)) then .error .ioOverlap
+      else .ok { s with ioRegions := s.ioRegions ++ [(name, q.region o)] }
   else
     match q.origin with
     | none =>
@@ -132,25 +135,25 @@ def addRegion (s : BusH ν) (name : ν) (q : Req) : Except Err (BusH ν) :=
       | .ok r => .ok { s with regions := s.regions ++ [(name, r)] }
       | .error e => .error e
     | some o =>
-      let r : Region := ⟨o, q.size, q.cached, q.linker, q.decode⟩
-      if s.ioCheck && s.isIo r && r.cached then .error .inIoCached
-      else if s.ioCheck && !s.isIo r && !r.cached then .error .notIoUncached
-      else
-        let l := s.regions ++ [(name, r)]
-        if anyOverlap (l.map (·.2)) then .error .overlap else .ok { s with regions := l }
+      if s.ioCheck && s.isIo (q.region o) && q.cached then .error .inIoCached
+      else if s.ioCheck && !s.isIo (q.region o) && !q.cached then .error .notIoUncached
+      -- `self.regions[name] = region`, then `check_regions_overlap(self.regions)` over all pairs
+      else if anyOverlap ((s.regions ++ [(name, q.region o)]).map (·.2)) then .error .overlap
+      else .ok { s with regions := s.regions ++ [(name, q.region o)] }
 
 /-- `add_master(name, master)` with an interface that needs no adaptation. -/
 def addMaster (s : BusH ν) (name : ν) : Except Err (BusH ν) :=
   if s.masters.contains name then .error .dupMaster else .ok { s with masters := s.masters ++ [name] }
 
-/-- `add_slave(name, slave, region)`; `q = none` looks the region up by name.  `add_region` runs before the
-    duplicate-slave test, as in the Python code. -/
+/-- First half of `add_slave(name, slave, region)`: `q = none` looks the region up by name, otherwise
+    `add_region(name, region)` runs (before the duplicate-slave test, as in the Python code). -/
+def slaveStage (s : BusH ν) (name : ν) : Option Req → Except Err (BusH ν)
+  | none => if s.regions.any (·.1 == name) then .ok s else .error .noRegion
+  | some q => if q.io then .error .badArg else s.addRegion name q
+
+/-- `add_slave(name, slave, region)` with an interface that needs no adaptation. -/
 def addSlave (s : BusH ν) (name : ν) (q : Option Req) : Except Err (BusH ν) :=
-  let s1 : Except Err (BusH ν) :=
-    match q with
-    | none => if s.regions.any (·.1 == name) then .ok s else .error .noRegion
-    | some q => if q.io then .error .badArg else s.addRegion name q
-  match s1 with
+  match s.slaveStage name q with
   | .error e => .error e
   | .ok s1 =>
     if s1.slaves.contains name then .error .dupSlave else .ok { s1 with slaves := s1.slaves ++ [name] }
